@@ -83,7 +83,7 @@ def postArity : Pipe → List Nat
   | .bin _ _ l r => postArity l ++ postArity r ++ [2]
 
 def wkName : WKind → String
-  | .setitem => "setitem" | .delitem => "delitem" | .locset => "locset"
+  | .setitem => "setitem" | .delitem => "delitem" | .locset => "locset" | .setcol => "setitem"
   | .resetIndex => "reset_index" | .setColumns => "set_columns"
 
 def errName : Err → String
